@@ -66,7 +66,9 @@ def main():
             envs[st["env"]] = mkenv(st)
         elif st["op"] == "prog":
             e = envs[st["env"]]
-            progs[st["env"]] = outcome(lambda: e.program(e.compile(st["expr"])))
+            import operator
+            fns = {n: getattr(operator, f) for n, f in st["functions"].items()} if st.get("functions") else None
+            progs[st["env"]] = outcome(lambda: e.program(e.compile(st["expr"]), functions=fns))
         elif st["op"] == "eval":
             pk, p = progs[st["env"]]
             if pk != "value":
@@ -77,7 +79,9 @@ def main():
             if st["op"] == "session":
                 envs[st["env"]] = mkenv(st)
             e = envs[st["env"]]
-            pk, p = outcome(lambda: e.program(e.compile(st["expr"])))
+            import operator
+            fns = {n: getattr(operator, f) for n, f in st["functions"].items()} if st.get("functions") else None
+            pk, p = outcome(lambda: e.program(e.compile(st["expr"]), functions=fns))
             if pk != "value":
                 out = {"kind": "construction-" + pk, "value": type(p).__name__, "intact": True}
                 continue
